@@ -155,3 +155,133 @@ pub proof fn lemma_sig_upto_all<'a>(tm: TMapV, p: PartV, s: StateID, rem: Seq<(&
         assert(sig_at(rem, p, i, cc, h));
     }
 }
+
+// ---------------------------------------------------------------- one refinement round
+pub type KeyMapV = Map<TransitionsToPartitionGroups, BTreeSet<StateID>>;
+/// derived Ord / Eq of the signature newtype: a total order whose equality is equality of the vectors (rule E4)
+pub broadcast axiom fn axiom_sigkey_cmp()
+    ensures #[trigger] vstd::std_specs::btree::key_obeys_cmp_spec::<TransitionsToPartitionGroups>();
+pub axiom fn axiom_sigkey_ext(a: TransitionsToPartitionGroups, b: TransitionsToPartitionGroups)
+    ensures a.0@ == b.0@ ==> a == b;
+/// x and y cannot be told apart by one step into the groups of p
+pub open spec fn same_sig(tm: TMapV, p: PartV, x: StateID, y: StateID) -> bool {
+    forall|cc: CharClassID, h: int| #![trigger sig_tm(tm, p, x, cc, h)] #![trigger sig_tm(tm, p, y, cc, h)] 0 <= h < p.len() ==> (sig_tm(tm, p, x, cc, h) <==> sig_tm(tm, p, y, cc, h))
+}
+/// states collected so far, by signature vector
+pub open spec fn split_inv(tm: TMapV, p: PartV, mv: KeyMapV, done: Seq<StateID>) -> bool {
+    &&& forall|k: TransitionsToPartitionGroups, x: StateID| mv.contains_key(k) && #[trigger] mv[k]@.contains(x) ==> done.contains(x) && sigvec_ok(tm, p, x, k.0@)
+    &&& forall|k: TransitionsToPartitionGroups| #[trigger] mv.contains_key(k) ==> set_nonempty(mv[k]@)
+    &&& forall|x: StateID| #[trigger] done.contains(x) ==> has_key_with(mv, x)
+    &&& forall|k1: TransitionsToPartitionGroups, k2: TransitionsToPartitionGroups, x: StateID| mv.contains_key(k1) && mv.contains_key(k2) && #[trigger] mv[k1]@.contains(x) && #[trigger] mv[k2]@.contains(x) ==> k1 == k2
+}
+pub open spec fn set_nonempty(s: Set<StateID>) -> bool { exists|x: StateID| #[trigger] s.contains(x) }
+pub open spec fn has_key_with(mv: KeyMapV, x: StateID) -> bool { exists|k: TransitionsToPartitionGroups| #[trigger] mv.contains_key(k) && mv[k]@.contains(x) }
+pub open spec fn in_some(r: PartV, x: StateID) -> bool { exists|i: int| 0 <= i < r.len() && #[trigger] r[i].contains(x) }
+/// the pieces a group is split into
+pub open spec fn split_ok(tm: TMapV, p: PartV, grp0: Set<StateID>, r: PartV) -> bool {
+    &&& forall|i: int, x: StateID| 0 <= i < r.len() && #[trigger] r[i].contains(x) ==> grp0.contains(x)
+    &&& forall|i: int| 0 <= i < r.len() ==> set_nonempty(#[trigger] r[i])
+    &&& forall|x: StateID| #[trigger] grp0.contains(x) ==> in_some(r, x)
+    &&& forall|i: int, j: int, x: StateID| 0 <= i < r.len() && 0 <= j < r.len() && #[trigger] r[i].contains(x) && #[trigger] r[j].contains(x) ==> i == j
+    &&& forall|i: int, x: StateID, y: StateID| 0 <= i < r.len() && #[trigger] r[i].contains(x) && #[trigger] r[i].contains(y) ==> same_sig(tm, p, x, y)
+}
+pub proof fn lemma_sigvec_same(tm: TMapV, p: PartV, x: StateID, y: StateID, v: Seq<(CharClassID, StateGroupID)>)
+    requires sigvec_ok(tm, p, x, v), sigvec_ok(tm, p, y, v), p.len() <= u32::MAX
+    ensures same_sig(tm, p, x, y)
+{
+    assert forall|cc: CharClassID, h: int| #![trigger sig_tm(tm, p, x, cc, h)] #![trigger sig_tm(tm, p, y, cc, h)] 0 <= h < p.len() implies (sig_tm(tm, p, x, cc, h) <==> sig_tm(tm, p, y, cc, h)) by {
+        let g = StateGroupID(h as u32);
+        assert(v.contains((cc, g)) <==> (g.0 < p.len() && sig_tm(tm, p, x, cc, g.0 as int)));
+        assert(v.contains((cc, g)) <==> (g.0 < p.len() && sig_tm(tm, p, y, cc, g.0 as int)));
+    }
+}
+
+/// BTreeMap::into_values().collect::<Vec<_>>(): the values, one per key (in key order, which no contract here uses)
+#[verifier::external_body]
+pub fn verif_into_values(m: BTreeMap<TransitionsToPartitionGroups, StateGroup>) -> (r: Vec<StateGroup>)
+    ensures
+        exists|ks: Seq<TransitionsToPartitionGroups>| #![trigger ks.len()] ks.len() == r@.len() && ks.no_duplicates()
+            && (forall|i: int| 0 <= i < ks.len() ==> m@.contains_key(#[trigger] ks[i]) && r@[i] == m@[ks[i]])
+            && (forall|k: TransitionsToPartitionGroups| #[trigger] m@.contains_key(k) ==> ks.contains(k)),
+{ m.into_values().collect::<Vec<_>>() }
+
+pub proof fn lemma_single_group(tm: TMapV, p: PartV, g: Set<StateID>)
+    requires g.len() == 1, g.finite()
+    ensures split_ok(tm, p, g, seq![g])
+{
+    let r = seq![g];
+    assert(set_nonempty(g)) by {
+        if !set_nonempty(g) { assert(g =~= Set::<StateID>::empty()); }
+    }
+    assert forall|i: int, x: StateID, y: StateID| 0 <= i < r.len() && #[trigger] r[i].contains(x) && #[trigger] r[i].contains(y) implies same_sig(tm, p, x, y) by {
+        if x != y {
+            let s2 = Set::<StateID>::empty().insert(x).insert(y);
+            assert(s2.len() == 2);
+            assert(s2.subset_of(g));
+            vstd::set_lib::lemma_len_subset(s2, g);
+        }
+    }
+    assert forall|x: StateID| #[trigger] g.contains(x) implies in_some(r, x) by { assert(r[0].contains(x)); }
+}
+pub proof fn lemma_split_final(tm: TMapV, p: PartV, mv: KeyMapV, g: Set<StateID>, done: Seq<StateID>, ks: Seq<TransitionsToPartitionGroups>, r: Seq<BTreeSet<StateID>>)
+    requires
+        split_inv(tm, p, mv, done), p.len() <= u32::MAX, forall|x: StateID| #[trigger] g.contains(x) <==> done.contains(x),
+        ks.len() == r.len(), ks.no_duplicates(), forall|i: int| 0 <= i < ks.len() ==> mv.contains_key(#[trigger] ks[i]) && r[i] == mv[ks[i]],
+        forall|k: TransitionsToPartitionGroups| #[trigger] mv.contains_key(k) ==> ks.contains(k),
+    ensures split_ok(tm, p, g, pv(r))
+{
+    let rv = pv(r);
+    assert forall|i: int, x: StateID| 0 <= i < rv.len() && #[trigger] rv[i].contains(x) implies g.contains(x) by { assert(mv[ks[i]]@.contains(x)); }
+    assert forall|i: int| 0 <= i < rv.len() implies set_nonempty(#[trigger] rv[i]) by { assert(mv.contains_key(ks[i])); assert(set_nonempty(mv[ks[i]]@)); }
+    assert forall|x: StateID| #[trigger] g.contains(x) implies in_some(rv, x) by {
+        assert(has_key_with(mv, x));
+        let k = choose|k: TransitionsToPartitionGroups| #[trigger] mv.contains_key(k) && mv[k]@.contains(x);
+        let i = choose|i: int| 0 <= i < ks.len() && ks[i] == k;
+        assert(rv[i].contains(x));
+    }
+    assert forall|i: int, j: int, x: StateID| 0 <= i < rv.len() && 0 <= j < rv.len() && #[trigger] rv[i].contains(x) && #[trigger] rv[j].contains(x) implies i == j by {
+        assert(mv[ks[i]]@.contains(x) && mv[ks[j]]@.contains(x));
+        assert(ks[i] == ks[j]);
+        if i != j { assert(ks[i] != ks[j]); }
+    }
+    assert forall|i: int, x: StateID, y: StateID| 0 <= i < rv.len() && #[trigger] rv[i].contains(x) && #[trigger] rv[i].contains(y) implies same_sig(tm, p, x, y) by {
+        assert(mv[ks[i]]@.contains(x) && mv[ks[i]]@.contains(y));
+        lemma_sigvec_same(tm, p, x, y, ks[i].0@);
+    }
+}
+/// inserting state x under its signature vector key keeps the collection invariant
+pub proof fn lemma_split_step(tm: TMapV, p: PartV, mv0: KeyMapV, mv1: KeyMapV, done: Seq<StateID>, x: StateID, k: TransitionsToPartitionGroups)
+    requires
+        split_inv(tm, p, mv0, done), !done.contains(x), sigvec_ok(tm, p, x, k.0@),
+        mv1.contains_key(k), mv1[k]@ == (if mv0.contains_key(k) { mv0[k]@.insert(x) } else { Set::<StateID>::empty().insert(x) }),
+        forall|k2: TransitionsToPartitionGroups| k2 != k ==> (#[trigger] mv1.contains_key(k2) <==> mv0.contains_key(k2)) && (mv0.contains_key(k2) ==> mv1[k2] == mv0[k2]),
+    ensures split_inv(tm, p, mv1, done.push(x))
+{
+    let d1 = done.push(x);
+    assert forall|y: StateID| done.contains(y) implies d1.contains(y) by { let i = choose|i: int| 0 <= i < done.len() && done[i] == y; assert(d1[i] == y); }
+    assert(d1[done.len() as int] == x);
+    assert forall|k2: TransitionsToPartitionGroups, y: StateID| mv1.contains_key(k2) && #[trigger] mv1[k2]@.contains(y) implies d1.contains(y) && sigvec_ok(tm, p, y, k2.0@) by {
+        if k2 == k { if y != x { assert(mv0.contains_key(k) && mv0[k]@.contains(y)); } } else { assert(mv0[k2]@.contains(y)); }
+    }
+    assert forall|k2: TransitionsToPartitionGroups| #[trigger] mv1.contains_key(k2) implies set_nonempty(mv1[k2]@) by {
+        if k2 == k { assert(mv1[k]@.contains(x)); } else { assert(set_nonempty(mv0[k2]@)); let y = choose|y: StateID| #[trigger] mv0[k2]@.contains(y); assert(mv1[k2]@.contains(y)); }
+    }
+    assert forall|y: StateID| #[trigger] d1.contains(y) implies has_key_with(mv1, y) by {
+        if y == x { assert(mv1.contains_key(k) && mv1[k]@.contains(x)); } else {
+            let i = choose|i: int| 0 <= i < d1.len() && d1[i] == y;
+            assert(done[i] == y); assert(done.contains(y));
+            assert(has_key_with(mv0, y));
+            let k2 = choose|k2: TransitionsToPartitionGroups| #[trigger] mv0.contains_key(k2) && mv0[k2]@.contains(y);
+            if k2 == k { assert(mv1[k]@.contains(y)); } else { assert(mv1.contains_key(k2)); assert(mv1[k2] == mv0[k2]); assert(mv1[k2]@.contains(y)); }
+        }
+    }
+    assert forall|k1: TransitionsToPartitionGroups, k2: TransitionsToPartitionGroups, y: StateID| mv1.contains_key(k1) && mv1.contains_key(k2) && #[trigger] mv1[k1]@.contains(y) && #[trigger] mv1[k2]@.contains(y) implies k1 == k2 by {
+        if y == x {
+            if k1 != k { assert(mv0[k1]@.contains(x)); assert(done.contains(x)); }
+            if k2 != k { assert(mv0[k2]@.contains(x)); assert(done.contains(x)); }
+        } else {
+            if k1 == k { assert(mv0.contains_key(k) && mv0[k]@.contains(y)); } else { assert(mv0[k1]@.contains(y)); }
+            if k2 == k { assert(mv0.contains_key(k) && mv0[k]@.contains(y)); } else { assert(mv0[k2]@.contains(y)); }
+        }
+    }
+}
